@@ -15,6 +15,15 @@ PERSISTABLE = ['Resistor', 'Conductance', 'Impedance', 'Capacitor', 'Inductance'
 VALS = [1.0, 2.0, 5.0, 10.0, 47.0, 100.0, 0.5, 0.25]
 
 
+def sine_reference(rng, kind, s):
+    """a sinusoidal source given as A·sin(wt + phi): the circuit's (cosine-referenced) phase is phi - pi/2.  Only with the phase in radians:
+    with deg=True the library subtracts pi/2 from the value in degrees (observed, not judged — DESIGN.md)"""
+    if kind in ('ACVoltageSource', 'ACCurrentSource') and rng.random() < 0.3:
+        s['kw']['sin'] = True
+        s['kw']['deg'] = False
+        s['kw']['phi'] = rng.choice([0.0, 0.5, 1.0, -2.0])
+
+
 def mk_symbol(rng, kind, name, p, q):
     s = {'cls': kind, 'name': name, 'p': list(p), 'q': list(q), 'reverse': False, 'kw': {}}
     v = rng.choice(VALS)
@@ -52,9 +61,11 @@ def mk_symbol(rng, kind, name, p, q):
     elif kind.endswith('VoltageSource'):
         s['kw'] = {'V': v, 'w': rng.choice([1.0, 50.0, 314.0]), 'phi': rng.choice([0.0, 0.5, 90.0, 30.0]), 'deg': rng.random() < 0.5}
         s['reverse'] = rng.random() < 0.4
+        sine_reference(rng, kind, s)
     elif kind.endswith('CurrentSource'):
         s['kw'] = {'I': v, 'w': rng.choice([1.0, 50.0, 314.0]), 'phi': rng.choice([0.0, 0.5, 90.0, 30.0]), 'deg': rng.random() < 0.5}
         s['reverse'] = rng.random() < 0.4
+        sine_reference(rng, kind, s)
     return s
 
 
@@ -195,6 +206,8 @@ def intended(program):
         kw = s['kw']
 
         def phase():
+            if kw.get('sin') and c in ('ACVoltageSource', 'ACCurrentSource'):
+                return kw['phi'] - math.pi / 2
             return kw['phi'] * math.pi / 180 if kw.get('deg') else kw['phi']
         if c == 'Resistor':
             comps.append(('resistor', s['name'], (a, b), {'R': kw['R']}))
